@@ -1,4 +1,4 @@
-(* C13: the relaxed HEADER canonicalization of dkim.rs (one mutually recursive pass over the serialized fields)
+(* C13: the relaxed HEADER canonicalization of dkim.rs (one pass over the serialized fields - name, value, name, ... -)
    is RFC 6376 3.4.2 (per field: lower-case name, unfold, compress WSP, strip WSP at the end of the value and around
    the colon) - for every list of fields of the shape the header encoder writes: words separated by gaps of white
    space that hold at most one line break each, none directly after the colon. *)
